@@ -341,12 +341,87 @@ def _nat_lru_cache(it, a, k):
     return Native('lru_cache decorator', lambda it2, a2, k2: _memoising(a2[0]))
 
 
+def _nat_namedtuple(it, a, k):
+    """collections.namedtuple(name, fields): the real class; its instances are tuples whose fields are also attributes."""
+    import collections
+    cls = collections.namedtuple(str(a[0]), a[1] if not isinstance(a[1], str) else a[1].replace(',', ' ').split(), **k)
+    return Native('namedtuple class %s' % a[0], lambda it2, a2, k2: cls(*a2, **k2))
+
+
 def _nat_wraps(it, a, k):
     return Native('wraps decorator', lambda it2, a2, k2: a2[0])
 
 
 def _nat_cached_property(it, a, k):
     raise Uninterpretable('functools.cached_property applied by a call (as a decorator of a method it is handled by name)')
+
+
+class LazyGen(object):
+    """An interpreted generator that runs in a helper thread, one item per request (exactly one of the two threads runs at a time)."""
+    def __init__(self, it, fv, frame):
+        import threading
+        self.it, self.fv, self.frame = it, fv, frame
+        self.to_gen = threading.Semaphore(0)
+        self.to_main = threading.Semaphore(0)
+        self.msg = None
+        self.inject = None
+        self.started = False
+        self.done = False
+        frame.gen_thread = self
+        self.thread = None
+
+    def run(self):
+        self.to_gen.acquire()
+        try:
+            self.it.exec_block(list(self.fv.node.body), self.frame)
+            self.msg = ('return', None)
+        except _Return as r:
+            self.msg = ('return', r.value)
+        except BaseException as e:
+            self.msg = ('raise', e)
+        self.to_main.release()
+
+    def yielded(self, value):            # called in the generator thread by e_Yield
+        self.msg = ('yield', value)
+        self.to_main.release()
+        self.to_gen.acquire()
+        if self.inject is not None:
+            e, self.inject = self.inject, None
+            raise e
+
+    def _resume(self):
+        import threading
+        if not self.started:
+            self.started = True
+            old = threading.stack_size()
+            try:
+                threading.stack_size(512 * 1024 * 1024)
+            except (ValueError, RuntimeError):
+                pass
+            try:
+                self.thread = threading.Thread(target=self.run, daemon=True)
+                self.thread.start()
+            finally:
+                try:
+                    threading.stack_size(old)
+                except (ValueError, RuntimeError):
+                    pass
+        self.to_gen.release()
+        self.to_main.acquire()
+        return self.msg
+
+    def stream(self):
+        while not self.done:
+            kind, v = self._resume()
+            if kind == 'yield':
+                yield v
+                continue
+            self.done = True
+            if kind == 'raise':
+                raise v
+
+    def __repr__(self):
+        return '<generator %s>' % self.fv.name
 
 
 class NativeModule(object):
@@ -470,6 +545,8 @@ class Interp(object):
                     env[local] = SuppModule(SUPP_MODULES[a.name])
                 elif mod == '__future__':
                     pass
+                elif mod == 'collections' and a.name == 'namedtuple':
+                    env[local] = Native('namedtuple', _nat_namedtuple)
                 elif mod == 'functools' and a.name in ('lru_cache', 'cache', 'wraps', 'cached_property'):
                     env[local] = Native('functools.' + a.name, {'lru_cache': _nat_lru_cache, 'cache': _nat_lru_cache,
                                                                 'wraps': _nat_wraps, 'cached_property': _nat_cached_property}[a.name])
@@ -661,8 +738,12 @@ class Interp(object):
             raise InterpRaise('TypeError', '%s() got unexpected keyword %r' % (fv.name, sorted(kwargs)[0]))
         frame = Frame(fv.rel, genv, local, fv.closure, fv)
         gen = not isinstance(node, ast.Lambda) and _is_generator(node)
+        if gen and any(isinstance(x, ast.While) for x in ast.walk(node)):
+            # a producer loop (`while True: ... yield request`): what it does between two items interleaves with its consumer, so it
+            # runs lazily, in a helper thread that is handed control for one item at a time
+            return LazyGen(self, fv, frame)
         if gen:
-            frame.yielded = []      # generators are run eagerly: sound for the side-effect-free ones of supp
+            frame.yielded = []      # the other generators are run eagerly: sound for the side-effect-free ones of supp
         self.call_depth += 1
         try:
             if isinstance(node, ast.Lambda):
@@ -897,6 +978,8 @@ class Interp(object):
             return Native('SymDict.get', sd_get)
         if isinstance(v, SymSet):
             return Native('symset_' + attr, lambda it, a, k, s=v, at=attr: it.symset_method(s, at, a))
+        if isinstance(v, tuple) and attr in getattr(type(v), '_fields', ()):
+            return getattr(v, attr)          # a field of a namedtuple
         if isinstance(v, (list, dict, set, str, tuple, bytes)):
             return Native('%s.%s' % (type(v).__name__, attr),
                           lambda it, a, k, _v=v, _a=attr: it.native_method(_v, _a, a, k))
@@ -922,6 +1005,8 @@ class Interp(object):
                 return Native('re.%s' % attr, lambda it, a, k, _m=getattr(v, attr): _m(*a, **k), model=True)
             if attr in ('pattern', 'string', 'pos', 'endpos', 'lastindex'):
                 return getattr(v, attr)
+        if isinstance(v, tuple) and attr in getattr(type(v), '_fields', ()):
+            return getattr(v, attr)
         if isinstance(v, ExcVal):
             if attr in v.attrs:
                 return v.attrs[attr]
@@ -1390,6 +1475,8 @@ class Interp(object):
         return repr(args[0])
 
     def iterate(self, v):
+        if isinstance(v, LazyGen):
+            return list(v.stream())
         if isinstance(v, (list, tuple)):
             return list(v)
         if isinstance(v, (set, frozenset)):
@@ -1833,7 +1920,8 @@ class Interp(object):
         self.exec_block(st.body if c else st.orelse, f)
 
     def s_For(self, st, f):
-        items = self.iterate(self.eval(st.iter, f))
+        src = self.eval(st.iter, f)
+        items = src.stream() if isinstance(src, LazyGen) else self.iterate(src)
         broke = False
         for it in items:
             self.assign(st.target, it, f)
